@@ -141,11 +141,11 @@ def gen_timing(rng, tier):
         n = rng.choice([1, 2])
         ks = [rng.randrange(1, n + 2) for _ in range(rng.randrange(2, 5))]
         cases.append(timing_case("x/multi", "hb", n, 30, [{"answer_at": k} for k in ks] + [{"answer_at": 0}],
-                                 stop_after=0, seq0=rng.choice([0, 99, TWO24 - 3 - len(ks)])))
-    # sequence counter at the 24-bit boundary (F31)
-    cases.append(timing_case("x/seq24", "hb", 1, 30, [{"answer_every": True}], stop_after=0, seq0=TWO24 - 1))
-    cases.append(timing_case("x/seq24", "hb", 2, 30, [{"answer_at": 2}, {"answer_every": True}], stop_after=0, seq0=TWO24 - 2))
-    cases.append(timing_case("x/seq24", "assoc", 1, 30, [{"answer_every": True}], stop_after=0, seq0=TWO24 + 5,
+                                 stop_after=0, seq0=rng.choice([0, 99, TWO24 - 3])))
+    # sequence counter at the 24-bit boundary: wraps to 0, the echo still matches
+    cases.append(timing_case("x/seq24", "hb", 1, 30, [{"answer_every": True}], seq0=TWO24 - 1))
+    cases.append(timing_case("x/seq24", "hb", 2, 30, [{"answer_at": 2}, {"answer_every": True}, {"answer_at": 3}, {"answer_at": 0}], stop_after=0, seq0=TWO24 - 2))
+    cases.append(timing_case("x/seq24", "assoc", 1, 30, [{"answer_every": True}], seq0=TWO24 - 1,
                              cfg={"ueip": True, "end_marker": True, "hb": False, "dnn": ""}))
     # agent-initiated association: rejected / malformed answer -> shutdown; accepted -> heartbeats follow
     cases.append(timing_case("x/assoc-rejected", "assoc", 2, 30, [{"answer_at": 1, "cause": REJECTED}], stop_after=0))
@@ -267,7 +267,7 @@ class View:
         for x in range(nx):
             txs = [e for e in self.tx if e["x"] == x]
             inj = [e for e in self.inj if e["x"] == x and e["what"] in ("resp", "dup", "wrong")]
-            self.xs.append({"x": x, "tx": txs, "inj": inj, "key": (c["seq0"] + 1 + x) % TWO32,
+            self.xs.append({"x": x, "tx": txs, "inj": inj, "key": c["seq0"] + 1 + x,
                             "script": c["scripts"][x] if x < len(c["scripts"]) else c["default"]})
 
     def delivered(self, x):
@@ -345,8 +345,11 @@ def timing_monitor(c, o):
                 continue
             later = [t for t in txs if (e["t_ret"] >= 0 and t["t"] > e["t_ret"])]
             if later:
+                # the hand-over does not wait for the requester: a timer that fired at the same moment may still
+                # cause ONE transmission right after it; anything more, or later, is a transmission after the response
+                hard = len(later) > 1 or later[0]["t"] > e["t_ret"] + T // 2 or not e["had"]
                 add(SIG_F31 if (big and not e["had"]) else "transmission-after-matching-response",
-                    f"exchange {x}: response seq {e['seq']} handled at {e['t_ret']} us, {len(later)} more transmission(s) (stored key {key})", True)
+                    f"exchange {x}: response seq {e['seq']} handled at {e['t_ret']} us, {len(later)} more transmission(s) (request number {key})", hard)
                 break
             soft = [t for t in txs if t["t"] > e["t"] + T // 2]
             if soft:
@@ -356,23 +359,23 @@ def timing_monitor(c, o):
         for e in X["inj"]:
             if e["t_ret"] >= 0:
                 continue
-            if v.closed_t is not None and e["t"] > v.closed_t:
-                continue                      # the socket is closed: the real reader would not see it
             if e["what"] == "wrong":
                 add("wrong-sequence-response-blocked-reader", f"exchange {x}: response seq {e['seq']} never returned", True)
-            elif v.own_teardown and e["t"] >= v.teardown_t - 2000 and len(txs) == 1 + N:
+            elif v.own_teardown and e["t"] >= v.teardown_t - 2000:
                 add(SIG_F30, f"exchange {x}: response seq {e['seq']} handed in at {e['t']} us, after the final timeout "
-                             f"({v.teardown_t} us) and before the connection closed ({v.closed_t}): HandlePFCPMsg never returned", True)
+                             f"({v.teardown_t} us; connection closed at {v.closed_t}): HandlePFCPMsg never returned", True)
             elif v.harness_shutdown is not None and e["t"] >= v.harness_shutdown:
-                pass                          # Shutdown() is closing the socket at this very moment
+                add("late-response-after-abort:reader-blocked", f"exchange {x}: response after Shutdown() never returned", True)
             else:
-                add("response-blocked-reader", f"exchange {x}: {e['what']} seq {e['seq']} handed in at {e['t']} us never returned", False)
+                add("response-blocked-reader", f"exchange {x}: {e['what']} seq {e['seq']} handed in at {e['t']} us never returned", True)
         # S5: dead only when every transmission went unanswered; then the sessions are removed
         bad_resp = typ == ASR and (X["script"].get("cause", 0) not in (0, ACCEPTED) or X["script"].get("omit_ts"))
         if is_last and v.own_teardown:
             if dl is not None:
                 if not bad_resp:
-                    add("torn-down-although-answered", f"exchange {x} was answered at {dl} us, Shutdown ran at {v.teardown_t} us", True)
+                    # a response handed in within the last third of the final wait may lose the race against the timer
+                    add("torn-down-although-answered", f"exchange {x} was answered at {dl} us, Shutdown ran at {v.teardown_t} us",
+                        dl < last + T - T // 3)
             else:
                 if len(txs) != 1 + N:
                     add("declared-dead-before-all-transmissions", f"exchange {x}: Shutdown after {len(txs)} of {1 + N} transmissions", True)
@@ -447,6 +450,11 @@ def timing_to_coq(c, o):
             items.append((v.harness_shutdown, 0, 0, "Shutdown", 0))
         for e in X["inj"]:
             k = e["t_ret"] if e["t_ret"] >= 0 else 10 ** 15
+            if e["had"] and e["t_ret"] >= 0:
+                # the requester may have acted on a timer that fired at the same moment before it looked at the reply slot
+                race = [t["t"] for t in txs if e["t_ret"] < t["t"] <= e["t_ret"] + c["t_ms"] * 500]
+                if race:
+                    k = max(race) + 1
             code = 1 if (e["had"] and e["t_ret"] >= 0) else 2 if e["t_ret"] >= 0 else 3 if e["had"] else 4
             items.append((k, 1, e["id"], f"Resp {e['seq']}", code))
         items.sort(key=lambda it: (it[0], it[1], it[2]))
@@ -537,14 +545,17 @@ def run(tier, seed, replay=None):
         "time is the trace: a Timeout event is the expiry of resp_timeout after the latest transmission; the model is fed a Timeout wherever "
         "the implementation acted on one, and the monitor checks on the timestamps that this was resp_timeout (-1 ms / +slack) after the previous transmission",
         "hb_postpones is about a monitor that sits in its select when the peer's heartbeat arrives (no exchange of its own in progress)",
-        "theorems about an exchange assume a healthy connection (no left-over pending entry, reader not wedged); C12_bound, C12_same_seq, "
-        "C12_spaced_step and all handler theorems hold for every state",
+        "theorems about an exchange assume no other request of the connection is outstanding (healthy); C12_health_is_invariant shows this "
+        "re-establishes itself whenever an exchange ends, so it holds for a connection with one request in flight at a time; C12_bound, "
+        "C12_same_seq, C12_spaced_step, C12_reader_never_blocks and all handler theorems hold for every state",
+        "the hand-over of a response does not wait for the requester: a retransmission timer that fires at the same moment may still cause one "
+        "transmission right after the response was handed in (accepted within resp_timeout/2, re-run otherwise)",
         "max_req_retries is a uint8 in the code; the theorems hold for every N",
     ]
     ck.rule = ("sync: all 16 configurations x all 8 datapath up/down patterns over three Association Setup Requests with Heartbeat Requests before, "
                "between and after, heartbeat floods beyond the reset channel, malformed requests, random sequences; timing: N in {0,1,2,5} x "
-               "resp_timeout in {30,60} ms x {answer k-th (k=1..N+1), none, wrong-sequence, duplicate, late (mid and after the final timeout), abort} "
-               "x {heartbeat, agent-initiated association}, multi-exchange connections, the 24-bit boundary, rejected / malformed association "
+               "resp_timeout in {30,60} ms x {answer k-th (k=1..N+1), none, wrong-sequence, duplicate, late (mid and after the final timeout: must be ignored, reader free), abort} "
+               "x {heartbeat, agent-initiated association}, multi-exchange connections across the 24-bit wrap (2^24-1 -> 0), rejected / malformed association "
                "responses, ticker scenarios with peer heartbeat trains, peer-initiated association with datapath up/down; "
                "non-trivial = at least one reply / transmission observed; distinct = distinct input object")
     ck.prove(TARGETS)
